@@ -41,6 +41,9 @@ STATEMENTS = [
     ("create-schema-other-database", "CREATE SCHEMA IF NOT EXISTS DB2.S3"),
     ("create-transient", "CREATE TRANSIENT TABLE IF NOT EXISTS T8 (I INT)"),
     ("insert-t8", "INSERT INTO T8 VALUES ({n})"),
+    # statements that carry Snowflake-side metadata and always fail (the work after them is committed like any other)
+    ("failing-create-with-metadata", "CREATE TABLE NO_SUCH_SCHEMA.TX (V VARCHAR(4)) COMMENT = 'never'"),
+    ("failing-alter-with-lengths", "ALTER TABLE NO_SUCH_TABLE ADD COLUMN C VARCHAR(3)"),
 ]
 # tables a user must find again once the statement creating them has succeeded (DROP only ever removes T3)
 CREATES = {
@@ -147,7 +150,7 @@ def _case(draw, tier):
         if open_:
             lab = draw(st.sampled_from(["insert", "insert-t2", "update", "delete", "merge", "commit", "commit", "rollback"]))
         else:
-            lab = draw(st.sampled_from([lab_ for lab_, _ in STATEMENTS]))
+            lab = draw(st.sampled_from([lab_ for lab_, _ in STATEMENTS] + ["failing-create-with-metadata", "failing-alter-with-lengths"]))
         if lab == "begin":
             open_ = True
         elif lab in ("commit", "rollback"):
@@ -289,6 +292,25 @@ def _child_verify(dbdir: str, dbs: list[str], reconnect: str, out_path: str, spe
             if d in present:
                 snowflake.connector.connect(database=SPELLINGS[spell](d))
         snap = _snapshot_all(fs)
+    # 3. (after the snapshot) the later process can go on working in each database: new objects get their metadata recorded
+    for d in sorted(present):
+        if "error" in user.get(d, {}):
+            continue
+        try:
+            with fakesnow.patch(db_path=dbdir, **kw):
+                cur = snowflake.connector.connect(database=SPELLINGS[spell](d)).cursor()
+                cur.execute("CREATE SCHEMA IF NOT EXISTS VF_LATER")
+                cur.execute("CREATE TABLE VF_LATER.NOTES (V VARCHAR(6)) COMMENT = 'later'")
+                cur.execute(f"SELECT comment FROM information_schema.tables WHERE table_catalog = '{d}' AND table_schema = 'VF_LATER' AND table_name = 'NOTES'")
+                c_ = cur.fetchall()
+                cur.execute(f"SELECT character_maximum_length FROM information_schema.columns WHERE table_catalog = '{d}' AND table_schema = 'VF_LATER' AND table_name = 'NOTES'")
+                l_ = cur.fetchall()
+                cur.execute("SELECT EQUAL_NULL(1, 1), EQUAL_NULL(NULL, NULL), EQUAL_NULL(1, NULL)")  # (needs what connect installs in the database)
+                q_ = cur.fetchall()
+                if [tuple(r) for r in c_] != [("later",)] or [tuple(r) for r in l_] != [(6,)] or [tuple(r) for r in q_] != [(True, True, False)]:
+                    user[d]["later_error"] = f"recorded comment {c_!r} / length {l_!r} / EQUAL_NULL {q_!r}"
+        except Exception as e:
+            user[d]["later_error"] = f"{type(e).__module__}.{type(e).__name__}: {str(e)[:300]}"
     with open(out_path, "w") as f:
         json.dump({"snap": snap, "user": json.loads(json.dumps(user, default=str))}, f)
 
@@ -376,6 +398,8 @@ def run_durability(case, ctx: Ctx) -> None:
             for d, res in sorted(uv.items()):
                 if "error" in res:
                     return f"reading information_schema of {d} failed: {res['error']}"
+                if res.get("later_error"):
+                    return f"a later process that connects to {d} cannot create a table with recorded metadata there: {res['later_error']}"
             problems = []
             for jx in states:
                 bad = []
